@@ -125,11 +125,13 @@ Proof.
   unfold rset_shape, rset_make, rset_pattern. intros S M.
   destruct (rset_build res [40%N] 2) as [[[sb g] sg] gc] eqn:B.
   destruct (build_nums _ _ _ _ _ _ _ B) as (N1 & N2 & N3 & N4).
+  destruct (existsb _ (somes res)); [discriminate|].
   unfold regcomp in M. destruct (parse_pat (sb ++ [41%N])) as [[[t|] rest]| |] eqn:P; try discriminate.
   destruct t; try discriminate. destruct rest; try discriminate.
   apply andb_prop in S. destruct S as [S C]. apply andb_prop in S. destruct S as [S1 S2].
   apply Z.eqb_eq in S1. apply Z.eqb_eq in S2. subst mn mx.
-  cbn [bind fst] in M.
+  cbn [bind fst snd] in M.
+  destruct (parse_bad (sb ++ [41%N]) || negb true); [discriminate|].
   destruct ((0 <=? NINST)%Z && (NINST <=? count (NGrp t g0 1 1) + 3)%Z); [discriminate|].
   inversion M; subst rs; clear M. cbn [rs_prog rs_n rs_grp rs_setgrpcnt rs_grpcnt tree].
   destruct (grpnum_alts (somes res) t 2 C) as [W T].
